@@ -513,6 +513,9 @@ def _valid_node(node):
             return False
         if not ch:
             return False
+        raws = [c for _, c in ch if isinstance(c, list) and c and c[0] == "raw"]
+        if raws and (k not in ARITH or len(raws) > 1):
+            return False  # a plain Python number is an operand only next to a term (5 - term: the reflected operators)
         built_tree(node)
     except Exception:
         return False
@@ -589,6 +592,21 @@ def triples():
                 yield parent, pos, child
 
 
+def reflected_nodes():
+    """plain Python numbers as the LEFT operand (5 - term, -3 * term ...: __radd__/__rsub__/__rmul__/__rtruediv__) over every kind of right operand,
+    and as the right operand (term - 5: wrap_constant)"""
+    rights = [C(0), ["vw", ["raw", -3]], ["neg", C(1)]] + [skeleton(op, C(4), C(5)) for op in ARITH] + [skeleton(op, ["vw", ["raw", -2]], C(5)) for op in ("mul", "div")]
+    for op in ARITH:
+        for num in (7, -3, 0, 2.5, -1.5):
+            for r in rights:
+                yield [op, ["raw", num], r]
+                yield [op, r, ["raw", num]]
+                # one level up: the reflected expression as an operand itself
+                for outer in ARITH:
+                    yield [outer, C(2), [op, ["raw", num], r]]
+                    yield [outer, [op, ["raw", num], r], C(2)]
+
+
 def run_fuzz_shard(shard):
     """coverage-guided layer (Atheris): bytes -> structured case, the same oracle inside the target"""
     from pbt import fuzz
@@ -606,7 +624,7 @@ def run_fuzz_shard(shard):
 
 
 def shards(tier, sd):
-    out = [("triples", tier, sd, c) for c in CTXS]
+    out = [("triples", tier, sd, c) for c in CTXS] + [("reflected", tier, sd, c) for c in CTXS]
     n = 6 if tier == "quick" else 32
     for k in range(n):
         out.append(("random", tier, sd * 1000 + k, None))
@@ -630,6 +648,11 @@ def run_shard(shard):
             _record(col, node, arg, classes=("triple",))
             n += 1
         col.notes["triples_enumerated"] = n
+        col.exhaustive = True
+        return col
+    if kind == "reflected":
+        for node in reflected_nodes():
+            _record(col, node, arg, classes=("reflected",))
         col.exhaustive = True
         return col
     if kind == "depth3":
